@@ -126,26 +126,40 @@ def z3_check(solver, stats: Stats, timeout_ms=None):
 def split_check(s, variables, lo, hi, st, timeout_ms=60000, max_cases=256):
     """Finite-domain case split, used when the solver answers `unknown` on a query whose integer
     variables have small domains: the query is re-asked once per assignment of `variables` in
-    [lo, hi] (each sub-query is still the solver's verdict over all remaining variables).
-    unsat everywhere -> "unsat"; a model anywhere -> ("sat", the fixed assignment as constraints);
-    otherwise "unknown".  Returns (verdict, constraints or None)."""
+    [lo, hi].  The assignment is SUBSTITUTED into the solver's assertions and the result simplified
+    (guards over the fixed variables collapse), then decided in a fresh solver - each sub-query is
+    still the solver's verdict over all remaining variables.
+    unsat everywhere -> "unsat"; a model anywhere -> "sat"; otherwise "unknown".
+    Returns (verdict, fixing constraints or None, model of the sub-query or None)."""
     import itertools
+    import z3
     variables = list(variables)
     while (hi - lo + 1) ** len(variables) > max_cases and variables:
         variables = variables[:-1]
     st.extra["case_splits"] = st.extra.get("case_splits", 0) + 1
+    asserts = list(s.assertions())
     verdict = "unsat"
     for vals in itertools.product(range(lo, hi + 1), repeat=len(variables)):
+        sub = [(v, z3.IntVal(x)) for v, x in zip(variables, vals)]
+        s2 = z3.Solver()
+        dead = False
+        for a in asserts:
+            a2 = z3.simplify(z3.substitute(a, *sub))
+            if z3.is_false(a2):
+                dead = True
+                break
+            if not z3.is_true(a2):
+                s2.add(a2)
+        if dead:
+            continue
         fix = [v == x for v, x in zip(variables, vals)]
-        s.push()
-        s.add(fix)
-        r = z3_check(s, st, timeout_ms)
-        s.pop()
+        s2.add(fix)
+        r = z3_check(s2, st, timeout_ms)
         if r == "sat":
-            return "sat", fix
+            return "sat", fix, s2.model()
         if r != "unsat":
             verdict = "unknown"
-    return verdict, None
+    return verdict, None, None
 
 
 def count_obligation(stats: Stats, result: str, formula_repr: str, symbolic: bool = True):
